@@ -5,7 +5,7 @@
 From Coq Require Import List ZArith Bool Arith NArith String.
 From Flocq Require Import IEEE754.Binary IEEE754.Bits.
 Require Import HP1 Cao1 Cao3 Score1 Rooms F32 Spec Quality QualityComb Json Cde CorrSel CorrNode CorrCde CorrCdeRooms WriteDoc Consts.
-Require Listing.
+Require Listing CdeIds.
 Import ListNotations.
 Open Scope nat_scope.
 
@@ -32,7 +32,8 @@ Definition track_name_of (j : json) (tr : option Z) : option string :=
     | None => None end
   end.
 
-(* bits: 1 the model reads the export | 2 the import side reads the document (strict: exactly the seven keys, one track per registration / course,
+(* bits: 16 the registration and course keys of the export are canonical decimal numbers (hypothesis of C05_ids_distinct / C05_end_to_end) |
+   1 the model reads the export | 2 the import side reads the document (strict: exactly the seven keys, one track per registration / course,
    the output schema version, kind partial) | 4 the document IS WriteDoc.write_doc of the lists it encodes (= Cde.write_regs / write_courses of the
    encoded assignment, the model's possible-rooms strings) with the event id of the export | 8 the summary starts with the fixed text for the
    options (track name, numbers of ignored courses / registrations) *)
@@ -53,8 +54,8 @@ Definition check_cde_doc (c : cde_doc_case) : N :=
       let same := json_eqb doc model in
       let sm := prefixb (summary_prefix (track_name_of j tr) (if ic then Some (ra_ign_courses amb) else None) (if ia then Some (ra_ign_regs amb) else None))
                         (im_summary im) in
-      (1 + 2 + (if same then 4 else 0) + (if sm then 8 else 0))%N
-    | None => 1%N
+      (1 + 2 + (if same then 4 else 0) + (if sm then 8 else 0) + (if CdeIds.keys_canonical j then 16 else 0))%N
+    | None => (1 + (if CdeIds.keys_canonical j then 16 else 0))%N
     end
   | RErr _ => 0%N
   end.
@@ -71,7 +72,8 @@ Definition check_simple_doc (c : simple_doc_case) : N :=
   match assignment_of_doc doc with
   | Some a =>
     let s := score_of courses parts a in let tm := theo_max courses parts in let nr := Z.of_nat (n_real parts) in
-    let q := quality_obj s tm (quality_bits (quality_num parts s) nr) (quality_bits (quality_num parts tm) nr) None in
+    let qf := fun num => if (nr =? 0)%Z then None else Some (quality_bits num nr) in
+    let q := quality_obj s tm (qf (quality_num parts s)) (qf (quality_num parts tm)) None in
     let same := json_eqb doc (simple_doc a q) in
     let arr := Listing.array_okb courses (List.length parts) a in
     ((if cls then 1 else 0) + 2 + (if same then 4 else 0) + (if arr then 8 else 0))%N
